@@ -360,6 +360,10 @@ def make_init(d, rng, case, kind_of_init, labels=None):
     if kind_of_init == 'blurred':
         assert labels is not None
         beta = d.float(0, 0.45)
+        if beta < 1e-6:
+            # no denormal-scale affiliations (a class whose only regular
+            # frames weigh 1e-300 is not a class with mass)
+            beta = 0.0
         onehot = (labels[..., None, :] == np.arange(K)[:, None]).astype(float)
         return (1 - beta) * onehot + beta * (1 - onehot) / max(K - 1, 1) \
             if K > 1 else onehot
@@ -602,6 +606,13 @@ def oracle_component_log_pdf(model, case, y=None, emb=None):
                 out[idx][k] = od.watson_logpdf(
                     yn[idx], np.asarray(w.mode)[idx][k],
                     float(np.asarray(w.concentration)[idx][k]))
+    elif kind == 'cbmm':
+        b = model.complex_bingham
+        for idx in np.ndindex(*lead):
+            for k in range(K):
+                out[idx][k] = od.bingham_logpdf(
+                    yn[idx], np.asarray(b.covariance_eigenvectors)[idx][k],
+                    np.asarray(b.covariance_eigenvalues)[idx][k])
     elif kind == 'gmm':
         g = model.gaussian
         ct = case.opts.get('covariance_type', 'full')
